@@ -29,7 +29,6 @@ RULE = ("fault plans over generated trees (depth <= 4, content files), search ru
 ASSUMPTIONS = [
     "a fault is a permission fault for an unprivileged process (chmod 000); vanished directories are not injected",
     "exit status when only a file is unreadable may be 0 or 1; wording of messages and bytes written before EPIPE is noticed are don't-care",
-    "is_shebang of an unreadable file may be empty or false",
 ]
 EXHAUSTIVE_NOTE = "every single-directory fault position of each generated tree; every close offset in the listed K set for all 6 formats x 4 result paths"
 
@@ -87,7 +86,12 @@ def strategy(tier):
 
 def enumerate_cases(tier):
     ks = KS if tier == "thorough" else ["pre-exec", 0, 1, 2, 3, 7, 16, 63, 64, 512, 4096, 8192, 32768]
-    return [{"kind": "pipe", "format": f, "path": p, "ks": ks} for f in FORMATS for p in PATHS]
+    cases = [{"kind": "pipe", "format": f, "path": p, "ks": ks} for f in FORMATS for p in PATHS]
+    # a link whose target cannot be read, and a file whose content cannot be read: what stays and what is empty
+    for mode in ("", "dfs"):
+        for tail in ("", " order by name"):
+            cases.append({"kind": "unreadable-target", "mode": mode, "tail": tail})
+    return cases
 
 
 # ---------------------------------------------------------------- tree faults
@@ -254,10 +258,10 @@ def check_tree_faults(out, case):
                             if r != c:
                                 out.add("C17/file-fault/other-row-changed", query=q, path=p, got=list(r), control=list(c))
                         elif case["query"] == "content":
-                            # path, size stay; sha1, line_count, contains empty; is_shebang empty or false
+                            # path, size stay; sha1, line_count, contains and is_shebang are empty
                             if r[1] != c[1]:
                                 out.add("C17/file-fault/metadata-cell-changed", path=p, got=list(r), control=list(c))
-                            if r[2] != "" or r[3] != "" or r[5] != "" or r[4] not in ("", "false"):
+                            if r[2] != "" or r[3] != "" or r[5] != "" or r[4] != "":
                                 out.add("C17/file-fault/content-cell-not-empty", query=q, path=p, got=list(r))
                         elif r[:3] != c[:3]:   # the mode column (index 3) is ---------- while the fault is active
                             out.add("C17/file-fault/metadata-cell-changed", path=p, got=list(r), control=list(c))
@@ -358,9 +362,66 @@ def check_pipe(out, case):
     out.sample = {"query": q, "close_after_bytes": [str(k) for k in case["ks"]][:12]}
 
 
+def check_unreadable_target(out, case):
+    """Links whose target cannot be resolved (dangling, a loop, into a directory closed to the user) and a file that
+    cannot be opened: the name columns (path, abspath, absdir) and the metadata stay, every content-derived column
+    is empty - is_shebang too, which the statement names - and no other row changes."""
+    cdir = runner.new_case_dir()
+    base = os.path.join(cdir, "t")
+    os.makedirs(base + "/c")
+    os.chmod(cdir, 0o755)
+    os.chmod(base, 0o755)
+    os.chmod(base + "/c", 0o755)
+    try:
+        os.makedirs(base + "/closed")
+        open(base + "/closed/inside", "w").close()
+        with open(base + "/c/g.txt", "w") as f:
+            f.write("#!/bin/sh\nneedle\n")
+        with open(base + "/c/secret.sh", "w") as f:
+            f.write("#!/bin/sh\nneedle\n")
+        os.symlink("nowhere", base + "/c/dangling")
+        os.symlink("loop", base + "/c/loop")
+        os.symlink("../closed/inside", base + "/c/shut")
+        os.chmod(base + "/closed", 0)
+        os.chmod(base + "/c/secret.sh", 0)
+        cols = ["name", "path", "abspath", "absdir", "size", "is_shebang", "line_count", "sha1", "contains('needle')"]
+        q = "select %s from c%s%s into list" % (", ".join(cols), (" " + case["mode"]) if case["mode"] else "", case["tail"])
+        res = runner.run([q], cwd=base, nobody=True)
+        out.evals += 1
+        if res.wall_timeout:
+            out.inconclusive = True
+            return
+        if res.sig is not None or res.status not in (0, 1) or b"panicked at" in res.err:
+            out.add("C17/unreadable-target/abnormal-exit", query=q, status=res.status, signal=res.sig, stderr=res.err[:300])
+            return
+        rows = {r[0]: r for r in runner.rows(res.out, len(cols))}
+        real = os.path.realpath(base + "/c")
+        want_names = {"g.txt", "secret.sh", "dangling", "loop", "shut"}
+        if set(rows) != want_names:
+            out.add("C17/unreadable-target/rows", query=q, got=sorted(rows), want=sorted(want_names))
+            return
+        for n, r in rows.items():
+            if r[1] != "c/" + n or r[3] != real or r[2] != real + "/" + n:
+                out.add("C17/unreadable-target/name-column-changed", query=q, name=n, path=r[1], abspath=r[2], absdir=r[3],
+                        want_abspath=real + "/" + n)
+            if n == "g.txt":
+                if r[5] != "true" or r[6] != "2" or r[8] != "true" or len(r[7]) != 40:
+                    out.add("C17/unreadable-target/readable-file-changed", query=q, row=list(r))
+            elif any(c != "" for c in r[5:]):
+                out.add("C17/unreadable-target/content-cell-not-empty", query=q, name=n, cells=dict(zip(cols[5:], r[5:])))
+        out.nt_keys = ["unreadable-target|%s|%s" % (case["mode"], case["tail"])]
+        out.classes.append("unreadable-target")
+        out.sample = {"query": q, "rows": len(rows)}
+    finally:
+        os.chmod(base + "/closed", 0o755)
+        runner.rmtree(cdir)
+
+
 def check(case):
     out = Outcome()
-    if case["kind"] == "pipe":
+    if case["kind"] == "unreadable-target":
+        check_unreadable_target(out, case)
+    elif case["kind"] == "pipe":
         check_pipe(out, case)
     else:
         check_tree_faults(out, case)
